@@ -22,10 +22,10 @@ pub fn prop() -> Prop {
 
 fn spec() -> Spec {
     Spec {
-        kinds: vec![Kind { name: "filtered_ik", quick: 4_000, thorough: 250_000, serial: false }],
+        kinds: vec![Kind { name: "filtered_ik", quick: 8_000, thorough: 400_000, serial: false }],
         rule: "each case = synthetic cell (coarse box meshes, base and tool incl. rotation-only / translation-only / identity transforms, 1..3 obstacles placed on IK branches of the requested pose) built through KinematicsWithShape::new (both first_collision_only values) or ::with_safety (random safety table and mode) x pose x previous x the four inverse entry points; the answer must equal, element for element and bit for bit, the answer of an independently built Tool{Base{OPWKinematics::new_with_constraints}} stack with the elements for which the same robot's collides() is true removed; forward, link poses, constraints() and singularity reports must be the stack's; positioned_robot must carry mesh i at link pose i, the tool at pose 6 and the environment in order. non-trivial = 0 < #removed < #answers of the stack; distinct = hash(cell, pose, entry)",
         assumptions: vec!["collides() of the same robot is taken as the definition of 'reported colliding' (its agreement with geometry is C10's subject)"],
-        minimums: vec![("oracle_evals", 50_000, 3_000_000), ("calls_with_partial_removal", 1_500, 90_000), ("order_sensitive_cases", 300, 18_000)],
+        minimums: vec![("oracle_evals", 50_000, 3_000_000), ("calls_with_partial_removal", 1_500, 90_000), ("order_sensitive_cases", 300, 18_000), ("pool.2", 2_000, 100_000)],
     }
 }
 
@@ -45,6 +45,14 @@ fn tf_variant(rng: &mut Rng, f: Fr) -> (Fr, &'static str) {
 
 fn run_case(_kind: &str, idx: u64, rng: &mut Rng, mon: &mut Mon, _tier: Tier) {
     let mut cell = Cell::generate(rng, idx, true, true, false);
+    // half of the cells have limits narrower than a turn on every joint: single members of the J4/J6 flip
+    // pairs drop out, so the stack answers with odd counts as well (3, 5, 7)
+    if rng.bool(0.5) {
+        let from: [f64; 6] = std::array::from_fn(|_| -rng.range(1.8, 3.2));
+        let to: [f64; 6] = std::array::from_fn(|_| rng.range(1.8, 3.2));
+        cell.constraints = rs_opw_kinematics::constraints::Constraints::new(from, to, cell.constraints.sorting_weight);
+        mon.count("cells_with_narrow_limits");
+    }
     let tool_rot = if rng.bool(0.5) { cell.tool_tf.r } else { random_rotation(rng) };
     let (tt, tclass) = tf_variant(rng, Fr { r: tool_rot, p: cell.tool_tf.p });
     cell.tool_tf = tt;
@@ -193,6 +201,7 @@ fn run_case(_kind: &str, idx: u64, rng: &mut Rng, mon: &mut Mon, _tier: Tier) {
                 continue;
             }
         };
+        mon.count(&format!("stack_answer_count.{}", under.len()));
         let removed = flags.iter().filter(|c| **c).count();
         if removed > 0 && removed < under.len() {
             mon.count("calls_with_partial_removal");
